@@ -117,7 +117,7 @@ func (g *Gen) liveSnap(d *Dump) string {
 }
 
 var attrNames = []string{"x", "y", "k", "AND", "a b", "é"}
-var attrValues = []string{"", "v", "vw", "w", "日日"}
+var attrValues = []string{"", "v", "vw", "w", "日日", "a  b", "a b", "(", "(555", "x\ty", "x y"}
 
 func (g *Gen) attrs() map[string]string {
 	n := g.r.Intn(4)
@@ -139,8 +139,12 @@ var filters = []string{
 	`attributes:x AND attributes:y`, `attributes:x OR attributes.k = "w"`, `-attributes:y`,
 	`NOT (attributes:x AND attributes.y = "")`, `attributes:"a b"`, `attributes:AND`, `attributes.é != "日日"`,
 	`attributes:x AND NOT hasPrefix(attributes.k,"v") AND attributes:y`, `(attributes:x OR attributes:y) AND attributes:k`,
+	// literals whose content must survive verbatim: runs of blanks, a tab, parentheses, layout outside literals
+	`attributes.k = "a  b"`, "hasPrefix(attributes.k, \"x\ty\")", `attributes.x = "("`, `hasPrefix(attributes.y, "(555")`, `attributes:"a b"  AND
+	NOT	attributes.k != "a  b"`, `NOT hasPrefix(attributes.x, "v")`, `NOT (attributes:x OR attributes:y)`, `attributes.k = ")" OR attributes.x = "("`,
 }
-var badFilters = []string{`attributes`, `attributes:x AND`, `attributes:x AND attributes:y OR attributes:k`, `x = "y"`, `attributes.x = y`, `"`, `attributes:5`}
+var badFilters = []string{"attributes:x\f", "\vattributes:x", "attributes.x = \"v\"\u00a0", "attributes:x\u0085", "\u2003attributes:x", " ", "\t\n", `attributes.x = "("(`,
+	`attributes`, `attributes:x AND`, `attributes:x AND attributes:y OR attributes:k`, `x = "y"`, `attributes.x = y`, `"`, `attributes:5`}
 
 var payloads = []string{
 	`{}`, `{"a":1}`, `{"a": 1 , "b" : [1, 2,3] }`, `"str"`, `123`, `1e400`, `12345678901234567890123`, `null`, `true`,
